@@ -175,6 +175,7 @@ func runC09(w *World, tier string) (bool, interface{}) {
 	injected := 0
 	judged := 0
 	var kinds []string
+	outsider, roundB := -1, ""         // a second round that leaves one participant of the first out
 	forceNext := false                 // the next genuine message gets a forged companion for sure
 	wrappedRounds := map[string]bool{} // round ids only reinit envelopes of the adversary name
 	w.Board.PreAppend = append(w.Board.PreAppend, func(m storage.Message, by int) {
@@ -208,6 +209,21 @@ func runC09(w *World, tier string) (bool, interface{}) {
 		}
 		kind := c09Kinds[w.Tape.Choose(len(c09Kinds), "kind")]
 		x := mutateAuth(w, m, by, kind)
+		if outsider >= 0 && m.DkgRoundID == roundB && w.Tape.Bool(1, 2, "fromTheOutsider") {
+			// a participant of the FIRST round only (every node has verified plenty of its
+			// messages there) posts into the second round, where no key is registered for
+			// it: its own name, its own genuine signature
+			kind = "sent-by-a-participant-of-another-round-only"
+			x = m
+			x.SenderAddr = w.Nodes[outsider].Name
+			if w.Tape.Bool(1, 2, "asReconstructedSignature") {
+				entry := []map[string]interface{}{{"File": "x", "BatchID": "outsider-batch", "MessageID": "outsider-msg", "SrcPayload": []byte("p"), "Signature": bytes.Repeat([]byte{9}, 96), "Username": x.SenderAddr, "DKGRoundID": roundB}}
+				x.Event = string(types.SignatureReconstructed)
+				x.RecipientAddr = ""
+				x.Data, _ = json.Marshal(entry)
+			}
+			x.Signature = ed25519.Sign(w.Nodes[outsider].Priv, x.Bytes())
+		}
 		if bytes.Equal(x.Data, m.Data) && bytes.Equal(x.Signature, m.Signature) && x.SenderAddr == m.SenderAddr {
 			return // mutation was a no-op
 		}
@@ -353,6 +369,26 @@ func runC09(w *World, tier string) (bool, interface{}) {
 			c.L.RunUntil(func() bool {
 				return len(c.Tr.Order) > before && c.Tr.AllHaveBatch(c.Tr.LastBatch(), members) && c.AllInState(round, StIdle, members)
 			}, 400*n)
+		}
+	}
+	// a second key generation on the same nodes among all participants but one; the one
+	// left out still has its key, and its name is known to everybody from the first round
+	if !w.Failed() && n >= 3 && c.AllInState(round, StIdle, members) && w.Tape.Bool(1, 3, "secondRoundWithoutOne") {
+		outsider = w.Tape.Choose(n, "outsider")
+		var members2 []int
+		for _, i := range members {
+			if i != outsider {
+				members2 = append(members2, i)
+			}
+		}
+		w.Advance(2 * time.Second)
+		t2 := 2 + w.Tape.Choose(len(members2)-1, "t2")
+		injected = 0
+		payload2 := w.StartDKGPayload(t2, members2)
+		roundB = RoundID(payload2)
+		if rp := w.CallAPI(w.Nodes[members2[0]], "startDKG", "POST", "/startDKG", payload2); rp.OK() {
+			w.Stats.Fault("multi-round")
+			c.RunDKG(roundB, members2, 500*n)
 		}
 	}
 	if !w.Failed() {
